@@ -120,6 +120,30 @@ def check_nearest(idx: Index, rep: Report) -> None:
         cfg = CFG(f.node)
         ws = [w for w in walk_local(f.node) if isinstance(w, ast.While)]
         if len(ws) != 1:
+            # `for x in <chain generator>(start): if x has the trait: return x` - the generator is checked instead
+            done = False
+            for lp in [w for w in walk_local(f.node) if isinstance(w, ast.For) and isinstance(w.iter, ast.Call) and isinstance(w.iter.func, ast.Name) and len(w.iter.args) == 1]:
+                h = idx.try_func(mod, lp.iter.func.id)
+                if h is None:
+                    continue
+                hp = h.raw_node.args.args[0].arg
+                hw = [w_ for w_ in walk_local(h.raw_node) if isinstance(w_, ast.While)]
+                ys = [y_ for y_ in ast.walk(h.raw_node) if isinstance(y_, ast.Yield)]
+                if len(hw) == 1 and len(ys) == 1 and isinstance(ys[0].value, ast.Name):
+                    cv = ys[0].value.id
+                    inits = [unparse(s_.value) for s_ in h.raw_node.body if isinstance(s_, (ast.Assign, ast.AnnAssign)) and unparse(s_.targets[0] if isinstance(s_, ast.Assign) else s_.target) == cv]
+                    advs = [unparse(s_.value) for s_ in walk_local(hw[0]) if isinstance(s_, ast.Assign) and unparse(s_.targets[0]) == cv]
+                    first_is_yield = isinstance(hw[0].body[0], ast.Expr) and hw[0].body[0].value is ys[0]
+                    test_ok = unparse(hw[0].test) in (f"{cv} is not None", cv)
+                    start_arg = unparse(lp.iter.args[0])
+                    start_param = f.node.args.args[0].arg
+                    tv = unparse(lp.target)
+                    body_txt = unparse(lp)
+                    if inits == [hp] and advs == [f"{cv}.parent_op()"] and first_is_yield and test_ok and start_arg == start_param and (f"{tv}.has_trait(traits.SymbolTable" in body_txt or f"{tv}.has_trait(SymbolTable" in body_txt):
+                        r.ok(f.fq, f"{f.loc} for {tv} in {h.name}({start_arg}): the operation itself, then parent_op() while not None")
+                        done = True
+            if done:
+                continue
             raise AnalysisError(f"{f.fq}: parent walk not found")
         w = ws[0]
         names = [n.id for n in ast.walk(w.test) if isinstance(n, ast.Name) and n.id not in ("SymbolTable", "traits")]
